@@ -45,7 +45,7 @@ def RULE(tier):
         "sides incl. reflected, 3 unary, item access with plain/slice/delayed indices, attribute access, 8 method calls x pure, delayed functions "
         "inc/add/tup/swap/ident x pure mode {None, False, True, pure=True at call time, config delayed_pure} x positional/keyword/nested-container "
         "arguments (list, tuple, set, dict value, dict key, slice, dataclass, namedtuple, 2-level nesting), delayed(container) x pure, "
-        "dask_key_name, nout + unpacking) over 11 delayed and 8 plain atoms (int, str, list, tuple, dict, dataclass, namedtuple); deeper levels: "
+        "dask_key_name, nout + unpacking; plus tup(w1, w2) for every ordered pair of the 72 pure delayed(container) objects over items {D(2), D(3), 3}) over 11 delayed and 8 plain atoms (int, str, list, tuple, dict, dataclass, namedtuple); deeper levels: "
         "every operation with one operand from the previous level's representatives. Oracles: computed value == eager value (type-strict); a "
         "pure root applied twice to the same operands -> same key; all pure calls grouped by key -> same function and equal eager arguments; "
         "nout=k -> len k and element i computes to result[i]. non-trivial = depth >= 2 or a nested container argument."
@@ -323,6 +323,10 @@ ATTRS = ["a", "b", "p", "q", "real", "imag"]
 METHS = [("count", (V(1),)), ("index", (V(2),)), ("upper", ()), ("get", (V("k"),)), ("get", (V("zz"), V(0))), ("keys", ()), ("bit_length", ()), ("count", (D(1),))]
 SHAPES2 = ["L", "T", "S", "Dv", "Dk", "P", "N", "LL"]
 PUREMODES = [None, False, True, "call", "cfg"]
+DEEP_PUREMODES = [None, True, "cfg"]  # levels >= 2
+DEEP_CONTAINER_OTHERS = 2  # levels >= 2: container partners are REDUCED[:2]
+WRAP_ITEMS = [D(2), D(3), V(3)]
+WRAP_SHAPES = ["L", "T", "S", "Dv", "Dk", "sl", "P", "N"]
 
 
 def keyname(e):
@@ -346,7 +350,7 @@ def ops_over(xs, others, level1):
         for name, args in METHS:
             for pure in (None, True):
                 yield ("meth", x, name, args, pure)
-        for mode in PUREMODES:
+        for mode in PUREMODES if level1 else DEEP_PUREMODES:
             yield ("call", "inc", mode, (x,), (), None, None)
             yield ("call", "ident", mode, (x,), (), None, None)
             for y in others:
@@ -362,7 +366,7 @@ def ops_over(xs, others, level1):
         yield ("call", "tup", None, (x,), (), 1, None)
         yield ("call", "tup", True, (), (), 0, None)
         for shape in SHAPES2:
-            for y in others:
+            for y in others if level1 else others[:DEEP_CONTAINER_OTHERS]:
                 for items in ((x, y), (y, x)):
                     c = ("c", shape, items)
                     for mode in (None, True):
@@ -378,6 +382,19 @@ def ops_over(xs, others, level1):
             yield ("wrap", c, None)
             yield ("wrap", c, True)
             yield ("call", "ident", None, (c,), (), None, None)
+
+
+def wrap_pairs():
+    """programs holding TWO near-identical pure delayed(container) objects (same items, other order / container kind)"""
+    wraps = []
+    for shape in WRAP_SHAPES:
+        for x in WRAP_ITEMS:
+            for y in WRAP_ITEMS:
+                items = (x, y, V(None)) if shape == "sl" else (x, y)
+                wraps.append(("wrap", ("c", shape, items), True))
+    for w1 in wraps:
+        for w2 in wraps:
+            yield ("call", "tup", True, (w1, w2), (), None, None)
 
 
 def fix_keyname(e):
@@ -443,6 +460,7 @@ def programs(tier):
 
     level = admit(ops_over(ATOMS, ATOMS, True))
     out.extend(level)
+    out.extend(admit(wrap_pairs()))
     for d in range(2, DEPTH[tier] + 1):
         reps, seen_cls = [], set()
         for e in level:
